@@ -106,6 +106,9 @@ class Report:
         """discharge one SMT obligation: `constraints` (the negated property) must be unsat.
         returns ('holds'|'violated'|'unknown', model-or-None)"""
         total = timeout_ms or (120000 if self.tier == 'quick' else 600000)
+        # wall-clock budget of the whole run (a broken tree can make many queries slow): past it every remaining query gets a few seconds only, an
+        # unanswered one makes the run inconclusive (violations already found are still reported)
+        if time.time() - self.t0 > (1200 if self.tier == 'quick' else 10800): total = min(total, 6000)
         cons = [c for c in constraints if c is not True]
         if any(c is False for c in cons): self.holds(name, 0.0); return 'holds', None
         # small portfolio inside the time budget: non-linear real queries are sensitive to the solver's random choices, so an attempt that
